@@ -1,5 +1,5 @@
 """C12 Boolean, list, first/all and address-only results agree with each other."""
-import gen_rules, patdiff
+import gen, gen_rules, impl, patdiff
 from props.common_pat import blob_tagger, finding_reproduces, replay  # noqa: F401
 
 import enginetie
@@ -60,6 +60,17 @@ def run(ctx, factor):
                 tags.append("matches=%d" % min(len(full_all), 4))
             else:
                 rep.violate("mode-dependent-error", case, "same outcome class in all modes", im)
+            if g.chance(0.3):
+                # the eight ways of asking as eight objects that exist at the same time (all constructed, then all run,
+                # in a random order): each must answer what it answers when it is constructed and run alone
+                combos = [(r, m, a) for r in ("bool", "list") for m in ("first", "all") for a in (False, True)]
+                g.r.shuffle(combos)
+                bm = impl.run_ops_batch(ctx.scratch, o["doc"], o["text"], combos)
+                tags.append("eight-objects-at-once")
+                if bm != im:
+                    diff = {k: (im[k], bm.get(k)) for k in im if bm.get(k) != im[k]}
+                    rep.violate("answer-depends-on-other-objects-of-the-same-rule", case,
+                                {k: v[0] for k, v in diff.items()}, {k: v[1] for k, v in diff.items()}, model_agrees_with_spec=None)
         rep.case(patdiff.case_of(o), usable, tags=tags)
         if rep.violations and factor > 1:
             return
